@@ -361,3 +361,5 @@ def run_case(case, res):
     res.states.add(digest([strategy, n]))
     res.sample = dict(ctx, n_evaluations=n, events=kinds[:12])
     res.note("evaluations_field_equals_last_point_count" if n and int(evaluations) == pts[-1] else "evaluations_field_differs")
+
+RULE += (" " + 'Limits are passed as python ints, floats and numpy scalars.')
